@@ -125,6 +125,17 @@ func genC12(seed uint64, run int, tier string) Scenario {
 				rep := &peer.Reply{}
 				pre, _ := g.out(2)
 				rep.Out = pre
+				if r.IntN(6) == 0 {
+					// a long reply (far beyond the prompt search depth) whose first line must still
+					// be in the result
+					head := fmt.Sprintf("HEAD%d-%s", qn*10+e, word(r, lower, 3, 8))
+					long := []peer.Tok{{S: head}, {S: g.nl}}
+					for k := between(r, 25, 60); k > 0; k-- {
+						long = append(long, peer.Tok{S: word(r, lower+digits+" ", 30, 60)}, peer.Tok{S: g.nl})
+					}
+					rep.Out = append(long, rep.Out...)
+					op.Must = append(op.Must, head)
+				}
 				if e >= 2 && r.IntN(2) == 0 && len(op.Marks) >= 2 && op.Events[e-2].Response != "" {
 					// the device mentions an earlier question again, pauses, and only then shows
 					// what this event is waiting for
@@ -147,6 +158,10 @@ func genC12(seed uint64, run int, tier string) Scenario {
 						// instead of the next question the device ends the dialogue
 						rep.Next = "exec"
 						op.Marks[len(op.Marks)-1] = strings.TrimRight(exec.Prompt, " ")
+						if r.IntN(2) == 0 {
+							// ... at an event that names no response of its own (it waits for the prompt)
+							ev.Response = ""
+						}
 					}
 				}
 				// the mode in which this event's line arrives: NoEcho iff hidden
@@ -293,6 +308,19 @@ func runC12(env *Env, s Scenario) {
 
 				continue
 			}
+			if len(ws) > 0 && op.Events[0].Response == "" {
+				// listed finding: an event that names no response is not waited for as echo either,
+				// so a prompt the device had shown before the operation began (and nobody consumed:
+				// the first operation of a connection) satisfies its wait for "the prompt" at once
+				// and the dialogue ends before the device has said anything
+				before := strings.TrimRight(strings.ReplaceAll(string(stream[:ws[0].Emitted]), "\r", ""), " ")
+				res := strings.TrimRight(rec.Result, " ")
+				if res != "" && strings.HasSuffix(before, res) && rec.DeliveredAtEnd < rec.EmittedAtEnd {
+					env.Fail("first-event-satisfied-by-stale-prompt", "interactive", "op %d: the dialogue's only wait was satisfied by the prompt %q that had been delivered before the operation started; result %q, device reply not awaited (%d of %d bytes delivered when it returned)", i, res, rec.Result, rec.DeliveredAtEnd, rec.EmittedAtEnd)
+
+					return
+				}
+			}
 			nev := len(op.Events)
 			if op.EarlyAt > 0 {
 				nev = op.EarlyAt
@@ -335,6 +363,11 @@ func runC12(env *Env, s Scenario) {
 				}
 			}
 			// the result contains the whole dialogue
+			for _, m := range op.Must {
+				if !strings.Contains(rec.Result, m) {
+					env.Fail("dialogue-missing-from-result", "interactive", "op %d: result lacks %q, the first line of a long reply (result has %d bytes)", i, m, len(rec.Result))
+				}
+			}
 			pos := 0
 			for e := 0; e < nev; e++ {
 				j := strings.Index(rec.Result[pos:], op.Marks[e])
